@@ -96,9 +96,10 @@ Theorem save_pure : forall fs (d : document) t pk pty fs' d',
 Proof.
   intros fs d t pk pty fs' d' W H n Hn.
   unfold Package.d_save in H.
-  pose proof (d_tree_sem xml bytes kid par fs META d W is_xml_META) as [T1 [T2 [T3 [W1 _]]]].
+  pose proof (d_tree_sem xml bytes kid par fs META d W is_xml_META) as [T1 [T2 [T3 [W1 [_ [_ T7]]]]]].
   destruct (d_tree fs META d) as [d1 [x|]]; cbn [fst snd] in *; [|inversion H].
-  destruct (set_tree_sem xml bytes kid par fs META (stamp x) d1 W1 is_xml_META) as [W2 [S2 [S3 _]]].
+  destruct (T7 ltac:(discriminate)) as [x0 [Lx0 _]].
+  destruct (set_tree_sem xml bytes kid par fs META (stamp x) d1 W1 is_xml_META (wfd_live _ _ _ _ _ W1 META x0 Lx0)) as [W2 [S2 [S3 _]]].
   pose proof (check_rdf_wf xml bytes kid par entries rdf0 fs _ W2) as W3.
   pose proof (check_rdf_sem fs _ W2) as [R1 R2].
   destruct (check_rdf fs (set_tree xml bytes META (stamp x) d1)) as [d3 ok3]. cbn [fst] in *.
